@@ -192,6 +192,19 @@ Definition run (op : bytes) (args : list val) : val :=
         else VBad
     | _ => VBad
     end
+  (* the same through owned items (StrftimeItems::parse_to_owned, then format::parse over the owned
+     list): Item::OwnedLiteral / Item::OwnedSpace are read exactly like Literal / Space *)
+  else if op_is op "fp.rtxo" then
+    match args with
+    | [VInt kind; v; VStr f; VInt seed] =>
+        if Model.Strftime.utf8_valid f && in_u64 seed then
+          match dec_fa kind v with
+          | None => VBad
+          | Some ra => after_format kind (perturbed ra f seed) f
+          end
+        else VBad
+    | _ => VBad
+    end
   else if op_is op "fp.parse" then
     match args with
     | [VInt kind; VStr text; VStr f] =>
